@@ -73,16 +73,12 @@ def check(repo: Repo, rep: Report) -> None:
         if stopped is False:
             ok = ok and k == ["CHECK", "APPEND"] and SC.ret_kind(pth) == "InnerSubscription"
         elif stopped is True:
-            ex = pth.decided("ex")
-            if ex is None:
-                ex = pth.decided("ex is not None")
-            if ex is None and pth.decided("ex is None") is not None:
-                ex = not pth.decided("ex is None")
-            hv = pth.decided("has_value")
+            ex = SC.decided_field(sub, pth, "exception")
+            hv = SC.decided_field(sub, pth, "has_value")
             if ex:
-                want = ["ERR:ex"]
+                want = ["ERR:self.exception"]
             elif hv:
-                want = ["NEXT:value", "COMPL:"]
+                want = ["NEXT:self.value", "COMPL:"]
             else:
                 want = ["COMPL:"]
             ok = ok and k[1:] == want and SC.ret_kind(pth) == "Disposable"
